@@ -94,17 +94,29 @@ def setitem_invalidation(ctx, keys=None, why=""):
     notes = []
     for n in cfg.nodes:
         if n.kind == "test":
-            ats = atoms(n.ast, True)
-            if any(a.pol and a.text in (f"self[{keyv}] == {valv}",
-                                        f"{valv} == self[{keyv}]")
-                   for a in ats):
-                eq_edges.add((n.id, "true"))
+            for pol, lab in ((True, "true"), (False, "false")):
+                ats = atoms(n.ast, pol)
+                if any(a.pol and a.text in (f"self[{keyv}] == {valv}",
+                                            f"{valv} == self[{keyv}]")
+                       for a in ats):
+                    eq_edges.add((n.id, lab))
         elif n.kind == "for":
-            ok, missing = _full_state_loop(n.ast, valv)
+            ok, missing = _full_state_loop(n.ast, valv, fn)
             if ok:
                 eq_edges.add((n.id, "exhaust"))
             elif missing is not None:
                 notes.append((n, missing))
+        if n.kind == "test":
+            # `if <differ-predicate>(stored, new): reset()`
+            for pol, lab in ((True, "false"), (False, "true")):
+                for a in atoms(n.ast, pol):
+                    if not a.pol or not isinstance(a.node, ast.Call):
+                        continue
+                    ok, missing = _differ_call(a.node, fitm, valv)
+                    if ok:
+                        eq_edges.add((n.id, lab))
+                    elif missing:
+                        notes.append((n, missing))
 
     def edge_ok(s, t, lab):
         if (s, lab) in eq_edges:
@@ -147,7 +159,10 @@ def setitem_invalidation(ctx, keys=None, why=""):
         conds = conditions_at(rn.ast)
         texts = {(a.text, a.pol) for a in conds}
         is_rx = (f"{keyv} == 'range_x'", True) in texts
-        edelta = ("self['optimal_fit_edelta']", True) in texts
+        edelta = any(pol and t in ("self['optimal_fit_edelta']",
+                                   "self.get('optimal_fit_edelta', False)",
+                                   "self.get('optimal_fit_edelta')")
+                     for t, pol in texts)
         same_hi = any(a.pol and a.text.replace(" ", "") in (
             f"self['range_x'][1]=={valv}[1]",
             f"{valv}[1]==self['range_x'][1]") for a in conds)
@@ -190,11 +205,57 @@ def setitem_invalidation(ctx, keys=None, why=""):
     return not bad_store
 
 
-def _full_state_loop(loop: ast.For, valv):
+def _differ_call(call, fitm, valv):
+    """call of a helper that returns truthy iff some parameter state of the
+    stored initial parameters differs from the new ones"""
+    cn = call_name(call) or ""
+    short = cn.split(".")[-1]
+    cands = [f for q, f in fitm.funcs.items() if q.split(".")[-1] == short]
+    if not cands:
+        return False, None
+    h = cands[0]
+    params = [a.arg for a in h.args.args if a.arg not in ("self", "cls")]
+    args = [norm(a) for a in call.args] + [norm(k.value)
+                                           for k in call.keywords]
+    if valv not in args:
+        return False, None
+    from .symres import Resolver
+    R = Resolver(h)
+    for loop in walk_no_nested(h, False):
+        if not isinstance(loop, ast.For):
+            continue
+        for st in ast.walk(loop):
+            if isinstance(st, ast.If) and isinstance(st.test, ast.Compare) \
+                    and len(st.test.ops) == 1 and isinstance(
+                        st.test.ops[0], ast.NotEq) and any(
+                            isinstance(x, ast.Return) and isinstance(
+                                x.value, ast.Constant) and x.value.value
+                            is True for x in st.body):
+                sides = [R.resolve(st.test.left),
+                         R.resolve(st.test.comparators[0])]
+                kinds = [_state_kind(e) for e in sides]
+                if all(k == "full" for k in kinds):
+                    last = [x for x in h.body if isinstance(x, ast.Return)]
+                    if last and isinstance(last[-1].value, ast.Constant) and \
+                            last[-1].value.value is False:
+                        return True, None
+                missing = set()
+                for k in kinds:
+                    if isinstance(k, set):
+                        missing |= k
+                if missing:
+                    return False, missing
+    return False, None
+
+
+def _full_state_loop(loop: ast.For, valv, fn=None):
     """Is this `for pp in self['params_initial']` loop a complete comparison
     of parameter states with reset+break on difference?  Returns (ok,
     missing_attrs|None)."""
-    if "params_initial" not in norm(loop.iter):
+    from .symres import Resolver
+    R = Resolver(fn) if fn is not None else None
+    it = R.text(loop.iter) if R is not None else norm(loop.iter)
+    if "params_initial" not in it:
         return False, None
     var = loop.target.id if isinstance(loop.target, ast.Name) else None
     if var is None:
@@ -211,7 +272,10 @@ def _full_state_loop(loop: ast.For, valv):
             if not (has_reset and has_break):
                 continue
             sides = [st.test.left, st.test.comparators[0]]
-            exprs = [_resolve_local(s, loop) for s in sides]
+            if R is not None:
+                exprs = [R.resolve(s) for s in sides]
+            else:
+                exprs = [_resolve_local(s, loop) for s in sides]
             kinds = [_state_kind(e) for e in exprs]
             if all(k == "full" for k in kinds):
                 stored = any("self['params_initial']" in norm(e)
